@@ -30,6 +30,19 @@ def gen_rich(rng):
     return g
 
 
+def gen_ctx(rng):
+    """one sub-rule reached through the same LALR state and stack depth in a context that rejects end-of-input after it and one that accepts it"""
+    a, b, c, d = rng.sample('abcd', 4)
+    return rng.choice(['start: "%s" x "%s" | "%s" x\nx: "%s"\n' % (a, d, b, c), 'start: pair+\npair: "%s" x "%s" | "%s" x\nx: "%s" | "%s" "%s"\n' % (a, d, b, c, c, c),
+                       'start: "%s" x "%s" "%s" | "%s" x | x "%s"\nx: "%s"\n' % (a, d, d, b, a, c)]) + rng.choice(['%ignore " "\n', ''])
+
+
+def gen_overlap(rng):
+    """an %ignore pattern that can begin where a start terminal begins (and win there), hiding a real start inside its span"""
+    return rng.choice(['start: "a" "c"\n%ignore /aba/\n', 'start: "#" WORD+\nWORD: /[a-z]+/\n%ignore /#![^ \\n]*/\n%ignore " "\n', 'start: A B\nA: "a"\nB: "b"\n%ignore /ab+a/\n%ignore " "\n',
+                       'start: "a" "b"+\n%ignore /ab?c/\n', 'start: X+ ";"\nX: "x"\n%ignore /x;x/\n%ignore " "\n'])
+
+
 def brute(p, data, lo, hi, blank):
     from lark.exceptions import UnexpectedInput
     out = []; pos = lo
@@ -66,7 +79,9 @@ def _case(args):
         return {'nobuild': True}
     recs = []
     for _ in range(4):
-        if safe:
+        if safe == 'overlap':
+            text = ''.join(rng.choice(['a', 'b', 'c', 'aba', 'ab', 'abc', '#', '#!', 'x', 'y', ';', 'x;x', ' ']) for _ in range(rng.randint(0, 9)))
+        elif safe:
             text = ''.join(rng.choice('abcd  x') for _ in range(rng.randint(0, 10)))
         else:
             text = ''.join(rng.choice(['x', 'ab', 'let', '1', '42', '=', ';', ',', '.', '(', ')', ':', '+', ' ', ' ', '\n', '#c\n', '?']) for _ in range(rng.randint(0, 12)))
@@ -123,7 +138,7 @@ def _case(args):
             if longest:
                 attempt.append([s, toks[longest - 1].end_pos]); first_start[s] = toks[0].start_pos
         rec['search'], rec['attempt'], rec['first_start'] = search, attempt, first_start
-        if safe:
+        if safe is True:
             with guarded(20):
                 rec['brute'] = brute(p, data, lo, hi, b' ' if use_bytes else ' ')
         recs.append(rec)
@@ -134,9 +149,15 @@ def run(ctx, res):
     rng = random.Random(ctx['seed'] * 1000003 + 14)
     N = tier_scale(ctx['tier'], 20000, 120000) * (3 if ctx['deepen'] else 1)
     jobs = []
+    import lalrlib
     for i in range(N):
         safe = i % 2 == 0
-        jobs.append(((gen_safe if safe else gen_rich)(rng), rng.randrange(1 << 30), safe))
+        if i % 8 == 2:
+            jobs.append((rng.choice([gen_ctx(rng), lalrlib.gen_lalr(rng, prio_p=0) + '%ignore " "\n']), rng.randrange(1 << 30), True))      # merged-lookahead / shared-core LALR shapes
+        elif i % 8 == 5:
+            jobs.append((gen_overlap(rng), rng.randrange(1 << 30), 'overlap'))
+        else:
+            jobs.append(((gen_safe if safe else gen_rich)(rng), rng.randrange(1 << 30), safe))
     for f in ctx['known']:
         if f['id'] == 'F9' and f['status'] == 'open':
             from lark import Lark
@@ -177,5 +198,5 @@ def run(ctx, res):
             res.violation('matches overlap or are empty', dict(where, scan=r['ranges'])); continue
         if not r['values_ok']:
             res.violation('a match value differs from parse() of the snippet (tree, token positions or meta in full-text coordinates)', dict(where, detail=r.get('value_diff'))); continue
-        if safe and r['brute'] != r['ranges']:
+        if safe is True and r['brute'] != r['ranges']:
             res.violation('scan() is not leftmost-longest over the substrings that parse (prefix-free terminals)', dict(where, scan=r['ranges'], brute_force=r['brute']))
